@@ -11,6 +11,8 @@ fn write_element(
             writeln!(w, "\t@SerialName({:?})", &f.id.renamed)?;
         }
         let ty = match f.type_override(SupportedLanguage::Kotlin) {
+            // An override replaces the translated type, not the fact that the field is optional.
+            Some(type_override) if f.ty.is_optional() => format!("{}?", type_override),
             Some(type_override) => type_override.to_owned(),
             None => self
                 .format_type(&f.ty, generic_types)
